@@ -90,6 +90,20 @@ example : Ref.read T (renderRule (fileRule false true true (S "@{user_config_dir
     ⟨'@', (S "{user_config_dirs}/app{,.d}/[a-z]*.conf"), by decide +kernel, Or.inr rfl⟩ (by decide +kernel) (by decide +kernel) (by decide +kernel)]
   decide +kernel
 
+theorem network_tables_simple :
+    (∀ d ∈ reqValues T "network" "domains", SimpleW d ∧ '#' ∉ d ∧ d.getLast? ≠ some ',') ∧
+    (∀ t ∈ reqValues T "network" "type", SimpleW t ∧ '#' ∉ t ∧ t.getLast? ≠ some ',') := by
+  constructor <;> decide +kernel
+
+/-- **Network rules, the whole product** (symbolic: no enumeration of the 45 × 7 × 4 cases): every
+qualifier, every domain of the table with every socket type of the table. -/
+theorem C12_network_all (audit deny : Bool) (d t : Text)
+    (hd : d ∈ reqValues T "network" "domains") (ht : t ∈ reqValues T "network" "type") :
+    Ref.read T (renderRule (netRule audit deny d t) (padOf [])) =
+      some (mkR "network" { audit := audit, deny := deny, owner := false } [.s [], .s [], .s [], .s d, .s t, .s []]) :=
+  read_network T audit deny d t (network_tables_simple.1 d hd) (network_tables_simple.2 t ht)
+    (by simpa using hd) (by simpa using ht)
+
 theorem C12_ptrace_read :
     ∀ a ∈ reqValues T "ptrace" "access", ∀ q ∈ quals,
       readsBack (mk "ptrace" q (S " c") [.l [a], .s (S "\"@{p_systemd}\"")]) = true := by decide +kernel
